@@ -17,6 +17,10 @@ use crate::spec::v5::{self as s5, P5};
 pub enum Kind {
     Pub1,
     Pub2,
+    /// v5: QoS 1 publish whose handler returns a negative acknowledgement
+    Pub1Neg,
+    /// v5 server: QoS 1 publish whose handler fails with an error mapped to a negative acknowledgement
+    Pub1ErrAck,
     /// PUBREL for a QoS 2 publish completed (up to PUBREC) before the measured burst
     PubRel,
     Sub,
@@ -27,7 +31,7 @@ pub enum Kind {
 
 impl Kind {
     fn is_publish(self) -> bool {
-        matches!(self, Kind::Pub1 | Kind::Pub2)
+        matches!(self, Kind::Pub1 | Kind::Pub2 | Kind::Pub1Neg | Kind::Pub1ErrAck)
     }
 }
 
@@ -102,6 +106,11 @@ pub async fn run_case(c: Case) -> Result<CaseInfo, Failure> {
         let pid = i as u16 + 1;
         let (pkt, exp, g) = match k {
             Kind::Pub1 => (P5::Publish(Box::new(s5::Publish5 { qos: 1, pid: Some(pid), topic: "t/a".into(), ..Default::default() })), (4, pid), (G_PUB, pub_base + np)),
+            Kind::Pub1Neg | Kind::Pub1ErrAck => {
+                let outcome = if *k == Kind::Pub1Neg { Outcome::NegAck(0x87) } else { Outcome::ErrAck(0x80) };
+                app.pub_plans.borrow_mut().insert(pub_base + np, PubPlan { outcome, read: ReadPlan::Eager });
+                (P5::Publish(Box::new(s5::Publish5 { qos: 1, pid: Some(pid), topic: "t/a".into(), ..Default::default() })), (4, pid), (G_PUB, pub_base + np))
+            }
             Kind::Pub2 => (P5::Publish(Box::new(s5::Publish5 { qos: 2, pid: Some(pid), topic: "t/b".into(), ..Default::default() })), (5, pid), (G_PUB, pub_base + np)),
             Kind::PubRel => {
                 let id = 100 + nrel;
@@ -281,7 +290,8 @@ pub fn check_case(c: &Case) -> Result<CaseInfo, Failure> {
 fn kinds_for(role: Role) -> Vec<Kind> {
     match role {
         Role::V3Server => vec![Kind::Pub1, Kind::Pub2, Kind::PubRel, Kind::Sub, Kind::Unsub, Kind::Ping],
-        Role::V5Server => vec![Kind::Pub1, Kind::Pub2, Kind::PubRel, Kind::Sub, Kind::Unsub, Kind::Ping, Kind::Auth],
+        Role::V5Server => vec![Kind::Pub1, Kind::Pub2, Kind::Pub1Neg, Kind::Pub1ErrAck, Kind::PubRel, Kind::Sub, Kind::Unsub, Kind::Ping, Kind::Auth],
+        Role::V5Client => vec![Kind::Pub1, Kind::Pub1Neg],
         _ => vec![Kind::Pub1],
     }
 }
@@ -344,6 +354,8 @@ fn exhaustive(ctx: &Ctx) -> Stats {
         (Role::V5Server, vec![Kind::PubRel, Kind::Pub1, Kind::PubRel, Kind::Pub2, Kind::Sub][..n].to_vec()),
         (Role::V3Client, vec![Kind::Pub1; n]),
         (Role::V5Client, vec![Kind::Pub1; n]),
+        (Role::V5Server, vec![Kind::Pub1, Kind::Pub1ErrAck, Kind::Pub1Neg, Kind::Pub1ErrAck, Kind::Pub1][..n].to_vec()),
+        (Role::V5Client, vec![Kind::Pub1, Kind::Pub1Neg, Kind::Pub1, Kind::Pub1Neg, Kind::Pub1][..n].to_vec()),
     ];
     let mut work: Vec<Case> = Vec::new();
     for (role, kinds) in &patterns {
